@@ -232,14 +232,24 @@ INSTANCES.update({
 # C10 / C11 / C13: the harness asks for the local context after every call
 for _n in ["scope5", "scope6", "scope_q1", "scope_qfull", "ctx4", "ctx5", "poll_fut_d", "poll_eop", "poll_ss_d"]:
     INSTANCES[_n] = (dict(INSTANCES[_n][0], probe_ctx=True), INSTANCES[_n][1], INSTANCES[_n][2])
+# ... and SpanContext::from_span of every live handle (pure queries leave the model's state unchanged, so
+# behaviours that differ only in where they ask collapse into one terminal state: the harness asks everywhere)
+for _n in ["ctx4", "ctx5", "smp4", "smp5", "tree4", "tree5"]:
+    INSTANCES[_n] = (dict(INSTANCES[_n][0], probe_ctx=True, probe_spans=True), INSTANCES[_n][1], INSTANCES[_n][2])
 
 # mixed sampled / unsampled parent sets behind a local parent (seeded S09, S10)
 INSTANCES.update({
     "smp_mixed": (seq(["root", "child2", "setlp", "dropg", "childl", "lenter"], smp=[True, False], MaxOps=5, MaxSpans=4, MaxRoots=2,
-                      MaxTraces=2, MaxScopes=1, MaxLocal=1, MaxCycles=0, probe_ctx=True), "terminal", {}),
+                      MaxTraces=2, MaxScopes=1, MaxLocal=1, MaxCycles=0, probe_ctx=True, probe_spans=True), "terminal", {}),
 })
-for _n in ["smp4", "smp5"]:
-    INSTANCES[_n] = (dict(INSTANCES[_n][0], probe_ctx=True), INSTANCES[_n][1], INSTANCES[_n][2])
+
+# C10 with unsampled spans as local parents (seeded S31, S32: a scope that is never closed / never opened)
+INSTANCES.update({
+    "scope_smp": (seq(["root", "setlp", "dropg", "lenter", "lexit", "childl"], smp=[True, False], MaxOps=5, MaxSpans=3, MaxRoots=2,
+                      MaxTraces=2, MaxScopes=2, MaxLocal=1, MaxCycles=0, probe_ctx=True, probe_spans=True), "terminal", {}),
+    "scope_smp6": (seq(["root", "setlp", "dropg", "lenter", "lexit", "levent", "childl", "lcstart", "lccollect"], smp=[True, False], MaxOps=6, MaxSpans=3, MaxRoots=2,
+                       MaxTraces=2, MaxScopes=3, MaxLocal=1, MaxAtt=1, MaxLs=1, MaxCycles=0, probe_ctx=True, probe_spans=True), "terminal", {}),
+})
 
 
 # ---------------- hand-written behaviours the model cannot express ---------------------------------
@@ -297,7 +307,7 @@ EXTRA["churn_late"] = dict(cfg=dict(K=16, churn=True), repeat=150, behaviours=[d
 EXTRA["churn_mixed"] = dict(cfg=dict(K=16, churn=True), repeat=150, behaviours=[dict(steps=_LATE3, prefix=True), dict(steps=_LATE1, prefix=True)])
 
 # where most calls are no-ops, programs are told apart by the calls they make (see `view` in Fastrace.tla)
-for _n in ["notready4", "disabled4", "hostile4", "hostile5"]:
+for _n in ["notready4", "disabled4", "hostile4", "hostile5", "qlimit5", "scope_q1", "scope_qfull"]:
     INSTANCES[_n] = (dict(INSTANCES[_n][0], distinct_ops=True), INSTANCES[_n][1], INSTANCES[_n][2])
 
 # scopes closed / collected while local spans recorded in them are still open (C17, C18; seeded S16, S17)
@@ -323,4 +333,11 @@ INSTANCES.update({
                      MaxRoots=2, MaxTraces=2, MaxAtt=1, MaxLs=1, MaxLocal=1, MaxScopes=1, MaxCycles=1), "terminal", {}),
     "lc_multi_q": (seq(["root", "child2", "lcstart", "lenter", "lccollect", "collectopen", "pushc"], MaxOps=7, MaxSpans=3,
                        MaxRoots=2, MaxTraces=2, MaxLs=1, MaxLocal=1, MaxScopes=1, MaxCycles=0), "terminal", {}),
+})
+
+# prefix instances: every behaviour begins with the same calls (not counted in MaxOps), the menu takes over afterwards
+INSTANCES.update({
+    # attachments through the local context, nested local spans (seeded S27: consecutive add_property calls merged across spans)
+    "latt_deep": (dict(seq(["lenter", "lexit", "lprops", "lwith", "levent"], MaxOps=6, MaxSpans=1, MaxRoots=1, MaxLocal=2, MaxAtt=3, MaxScopes=1, MaxCycles=0),
+                       prefix=True, prog={1: [S("root", tr=1, smp=True), S("setlp", h=101)]}), "terminal", {}),
 })
